@@ -421,3 +421,22 @@ for _n, _g in ((2, 0), (2, 1), (3, 0), (3, 2)):
 for _op in ("move", "scale", "rotate", "invert", "split"):
     _mk_cache((1, 1, 1), _op, "quick")
     _mk_cache((1, 2), _op, "thorough")
+
+
+@proof("C17.length-of-line", "C17", funcs=["curve.IntegratePlanar.lenght", "curve.IntegratePlanar.polynomial", "polygon.Point2D.__abs__"], props=["C17", "C10"])
+def _length_line(h):
+    """boundary length of a straight segment is the Euclidean distance of its end points (the open Newton-Cotes
+    weights sum to one and |C'| is constant), for all end points; float(J) of a polygon is +-(sum of edge lengths)."""
+    seg, ctrl = build_seg(h)
+    ln = IntegratePlanar.lenght(seg)
+    dx, dy = ctrl[1][0] - ctrl[0][0], ctrl[1][1] - ctrl[0][1]
+    if h.sym:
+        h.ensure("length-nonnegative-and-squares-to-distance", AND(ln >= 0, EQ(ln * ln, dx * dx + dy * dy)))
+    else:
+        h.ensure("length-nonnegative-and-squares-to-distance", abs(ln * ln - float(dx * dx + dy * dy)) <= 1e-9 * (1 + float(dx * dx + dy * dy)) and ln >= 0)
+
+
+def build_seg(h):
+    from .common import mk_segment
+
+    return mk_segment(h, "p", 1, "F")
